@@ -132,6 +132,10 @@ struct machine
             }
             o.kraw("bit", bit + "]");
             o.kv("count", (long long)cx.count());
+            // second, independent routes to size() and count(): iterator distances and std::count over the const iterators
+            o.kv("dist", (long long)(x.end() - x.begin()));
+            o.kv("rdist", (long long)(cx.rend() - cx.rbegin()));
+            o.kv("itcnt", (long long)std::count(cx.cbegin(), cx.cend(), true));
             o.kb("any", cx.any()).kb("all", cx.all()).kb("none", cx.none());
             bool g = true;
             for (int j = 0; j < 2; ++j)          // the caller memory of both slots (views may have been swapped)
@@ -348,6 +352,24 @@ struct machine
                 bool v = a.num("v") != 0;
                 with(k, [&](auto& x) { std::fill(x.begin() + std::ptrdiff_t(i), x.begin() + std::ptrdiff_t(j), v); return 0; });
             }
+            else if (op == "Algo")
+            {
+                // standard algorithms over the bit iterators; y = the other object (source of copyfrom / equal)
+                const std::string& alg = a.str("alg");
+                std::ptrdiff_t i = std::ptrdiff_t(a.num("i")), m = std::ptrdiff_t(a.num("m")), j = std::ptrdiff_t(a.num("j"));
+                with2(k, o, [&](auto& x, auto& y) {
+                    const auto& cx = x; const auto& cy = y;
+                    if (alg == "reverse") std::reverse(x.begin() + i, x.begin() + j);
+                    else if (alg == "rotate") std::rotate(x.begin() + i, x.begin() + m, x.begin() + j);
+                    else if (alg == "iterswap") std::iter_swap(x.begin() + i, x.begin() + j);
+                    else if (alg == "copyfrom") std::copy(cy.cbegin() + i, cy.cbegin() + j, x.begin() + m);
+                    else if (alg == "copybwd") std::copy_backward(x.begin() + i, x.begin() + j, x.begin() + j + m);
+                    else if (alg == "count") val = "[" + std::to_string((long long)std::count(cx.cbegin() + i, cx.cbegin() + j, true)) + "]";
+                    else if (alg == "find") val = "[" + std::to_string((long long)(std::find(x.begin() + i, x.begin() + j, true) - x.begin())) + "]";
+                    else if (alg == "equal") val = std::equal(cx.cbegin() + i, cx.cbegin() + j, cy.cbegin() + i) ? "[1]" : "[0]";
+                    else { std::fprintf(stderr, "script: bad algorithm %s\n", alg.c_str()); std::exit(3); }
+                });
+            }
             else { std::fprintf(stderr, "script: unknown op %s\n", op.c_str()); std::exit(3); }
         }
         catch (const desync&) { exc = "desync"; }
@@ -368,11 +390,16 @@ struct machine
             arm_cpu_limit();
             vj::value e = vj::parse(line);
             std::string res = step(e);
-            bool eq, ne;
-            with2(0, 1, [&](auto& x, auto& y) { const auto& cx = x; const auto& cy = y; eq = (cx == cy); ne = (cx != cy); });
+            bool eq, ne, eq21, eqel;
+            with2(0, 1, [&](auto& x, auto& y) {
+                const auto& cx = x; const auto& cy = y;
+                eq = (cx == cy); ne = (cx != cy); eq21 = (cy == cx);
+                eqel = cx.size() == cy.size() && std::equal(cx.cbegin(), cx.cend(), cy.cbegin());
+            });
             // echo the call (op, k, a) and append what was observed
             std::string head = line.substr(0, line.rfind('}'));
-            std::string st = "{\"o\":[" + proj(0) + "," + proj(1) + "],\"eq\":" + (eq ? "true" : "false") + ",\"ne\":" + (ne ? "true" : "false") + "}";
+            std::string st = "{\"o\":[" + proj(0) + "," + proj(1) + "],\"eq\":" + (eq ? "true" : "false") + ",\"ne\":" + (ne ? "true" : "false")
+                             + ",\"eq21\":" + (eq21 ? "true" : "false") + ",\"eqel\":" + (eqel ? "true" : "false") + "}";
             std::fputs((head + ",\"res\":" + res + ",\"st\":" + st + "}\n").c_str(), stdout);
         }
         return 0;
